@@ -242,7 +242,7 @@ CHECKS = {
         "min_nontrivial_fraction": 0.2,
         "min_class_fraction": {"prefix_with_burn": 0.05, "prefix_with_mint": 0.3},
         "level_text": "Every explored height is a point at which an operator might export and restart; the restored chain must be observationally equivalent. Gas figures are not compared across a restart (IAVL and cache state legitimately differ). Distributor destinations exclude other modules' escrow accounts, whose own genesis import checks balances.",
-        "level_note": "Open known findings: F-CVAVALIDATE (accounts with start_time >= end_time fail x/auth genesis validation; such accounts are skipped in validation and counted, all other validation still runs) and F-SIGEXPORT (signature data not exported; no signature data is placed while it is open).",
+        "level_note": "Open known findings: F-CVAVALIDATE (accounts with start_time >= end_time fail x/auth genesis validation; such accounts are skipped in validation and counted, all other validation still runs) F-SIGEXPORT (signature data not exported; no signature data is placed while it is open) and F-GOVFUNDS (x/gov refuses to import a genesis whose governance account holds more than the deposits; such cases are counted and end before the import).",
         "design_ref": "DESIGN.md §5 C12",
     },
     "C15": {
